@@ -20,7 +20,7 @@ import headers as H
 def compile_pair(args):
     a, b, lang, asserts, workdir = args
     ext = "c" if lang == "c" else "cpp"
-    src = '#include "%s"\n#include "%s"\n' % (a, b)
+    src = '#include <stddef.h>\n#include "%s"\n#include "%s"\n' % (a, b)
     sa = "_Static_assert" if lang == "c" else "static_assert"
     for name, val in asserts:
         src += '%s((long long)(%s) == %dLL, "%s");\n' % (sa, name, val, name)
@@ -49,7 +49,8 @@ def check(rep, prop, tier, seed):
     excl = [k.split("pair:")[1].split("+") for k in known if k.startswith("pair:")]
     obligations = [("header_tables_sorted", "sortedAll Gen.headers = true", "by decide +kernel"),
                    ("header_ids_distinct", "idsDistinct Gen.headers = true", "by decide +kernel"),
-                   ("all_26_public_headers", "Gen.headers.length = %d" % len(hs), "by decide")]
+                   ("all_26_public_headers", "Gen.headers.length = %d" % len(hs), "by decide"),
+                   ("headers_leave_no_state", "Gen.headers.all (fun h => h.leaks.isEmpty) = true", "by decide")]
     if not excl:
         obligations += [("headers_pairwise_compatible", "pairwiseCompat Gen.headers = true", "by decide +kernel"),
                         ("any_selection_any_order_accepted",
@@ -72,12 +73,18 @@ def check(rep, prop, tier, seed):
     per = gen["probe_per_header"]
     byname = {r["name"]: r for r in recs}
 
+    layouts = {}
+    with cf.ThreadPoolExecutor(max_workers=16) as ex:
+        for h, lay in zip(hs, ex.map(lambda h: H.layout_probe(h["header"], h["records"], common.REPO, common.BUILD), hs)):
+            layouts[h["header"]] = lay
+
     def asserts_for(h):
         out = []
         for k, v in per.get(h, {}).items():
             if k.startswith("enum:") or (k.startswith("macro:")):
                 out.append((k.split(":", 1)[1], v))
-        return out
+        # size of every record type and offset of every member, as with the header alone
+        return out + layouts.get(h, [])
     workdir = tempfile.mkdtemp(prefix="c20_", dir=common.BUILD)
     jobs = []
     hl = [h["header"] for h in hs]
@@ -121,7 +128,7 @@ def check(rep, prop, tier, seed):
     rep.cov.update(evaluations=len(results), distinct_nontrivial=len(hl) * (len(hl) - 1), exhaustive=True,
                    model_vs_compiler_mismatches=mismatch,
                    rule="all %d ordered pairs of the %d public headers x {C99, C++17}: the two-include translation unit must compile and every enumerator / "
-                        "integer macro of both must keep the value it has when its header is included alone (static assertions from the compiled probe); "
+                        "integer macro, every record size and member offset of both must keep the value it has when its header is included alone (static assertions from the compiled probes); "
                         "the compiler's verdict is compared with the model's `compat`" % (len(hl) * (len(hl) - 1), len(hl)),
                    failed_atoms=["%s:%s" % x for x in res["failed_atoms"]][:30])
     rep.cov["samples"] = [{"pair": [results[0][0], results[0][1]], "lang": results[0][2], "ok": results[0][3]},
